@@ -10,7 +10,7 @@ cxx = False
 fixed_lines = 1
 rule = ("scripts start with 'r begin' and end with 'r end'; stream 1 (exhaustive): the stand-alone counter at 0, 1, 2, max-1, "
         "max x all raise/lower words up to length 4; per object kind (harness metatype, harness buffer, library heap buffer, "
-        "library rawdata) every history of length <= 3 (thorough: length 4 for the plain preset pair 1/1, length 3 for all 25 preset pairs) over take/copy/drop/assign/assigno/ext on 2 objects "
+        "library rawdata) every history of length <= 3 (thorough: length 4 for the plain preset pair 1/1, length 3 for all 25 preset pairs) over take/copy/drop/assign/assigno/ext (library heap buffers: also detach with a too small, a sufficient and a larger length) on 2 objects "
         "and 2 handles with counter presets 0, 1, 2, max-1, max; stream 2 (boundary): presets max-1/max/0 with assignment and "
         "self-assignment; stream 3: random histories over 3 objects of mixed kinds and 3 handles.  non-trivial = a history in "
         "which the code destroyed an object (callback log 'D' or finalised elements) or refused a reference, counted per distinct script")
@@ -78,9 +78,12 @@ def scripts(tier, seed, scale=1):
                     head = ["r begin", "r obj %s %s" % (kind, p0), "r obj %s %s" % (kind, p1)]
                     for hist in itertools.product(_ops(2, 2, [True, True]), repeat=3):
                         out.append(("ex:%s:%s/%s:%s" % (kind, p0, p1, "|".join(x[2:] for x in hist)), head + list(hist) + ["r end"]))
-    for kind, arg in (("rbuf", "2"), ("raw", "1")):
+    for kind, arg in (("rbuf", "10"), ("raw", "1")):
         head = ["r begin", "r obj %s %s" % (kind, arg), "r obj %s %s" % (kind, "1")]
         ops = _ops(2, 2, [False, False])
+        if kind == "rbuf":
+            # private copies of shared / unshared library buffers: too small (refused), sufficient, larger than the buffer
+            ops = ops + ["r detach %d %d" % (h, n) for h in range(2) for n in (1, 10, 30)]
         for hist in itertools.product(ops, repeat=3):
             out.append(("ex:%s:%s" % (kind, "|".join(x[2:] for x in hist)), head + list(hist) + ["r end"]))
     # mixed kinds: a buffer handle cannot take library and harness buffers at once
@@ -100,10 +103,12 @@ def scripts(tier, seed, scale=1):
             if kd in ("meta", "buf"):
                 lines.append("r obj %s %s" % (kd, r.choice(["1", "1", "2", "3", "0", "max-1", "max"])))
             elif kd == "rbuf":
-                lines.append("r obj rbuf %d" % r.choice([0, 1, 3]))
+                lines.append("r obj rbuf %d" % r.choice([0, 1, 3, 9, 10, 24, 25]))
             else:
                 lines.append("r obj raw 1")
         ops = _ops(len(kinds), 3, [kd in ("meta", "buf") for kd in kinds])
+        if "rbuf" in kinds:
+            ops = ops + ["r detach %d %d" % (h, n) for h in range(3) for n in (0, 1, 3, 8, 9, 24, 25, 40)]
         for _ in range(r.choice([4, 8, 16, 30])):
             lines.append(r.choice(ops))
         lines.append("r end")
